@@ -104,6 +104,7 @@ def zeta_even(j2):
 def zeta_neg(n):
     """zeta(-n), n >= 0, exact"""
     if n == 0: return Fraction(-1, 2)
+    if n % 2 == 0: return Fraction(0)               # B_odd = 0 (trivial zeros; n may be 10^6 here)
     return -bernoulli(n + 1) / (n + 1)
 
 
